@@ -46,7 +46,9 @@ pub fn mt(off: i64) -> MonotonicTime {
     MonotonicTime::new(secs, nanos).unwrap()
 }
 pub fn off(t: MonotonicTime) -> i64 {
-    (t.as_secs() - base_secs()) * 1_000_000_000 + t.subsec_nanos() as i64 - BASE_NANOS as i64
+    // Saturating: a wildly wrong time must be reported as such, not overflow the harness arithmetic.
+    let v = (t.as_secs() as i128 - base_secs() as i128) * 1_000_000_000 + t.subsec_nanos() as i128 - BASE_NANOS as i128;
+    v.clamp(i64::MIN as i128 + 1, i64::MAX as i128 - 1) as i64
 }
 
 // ---------------------------------------------------------------------------
